@@ -137,3 +137,80 @@ package astisub
 //@   loop 1: invariant forall id string :: (old(has(s.Regions, id)) ==> has(s.Regions, id) && s.Regions[id] == old(s.Regions[id])) && (!old(has(s.Regions, id)) ==> (has(s.Regions, id) <==> (has(i.Regions, id) && visited(1, id))) && (has(s.Regions, id) ==> s.Regions[id] == i.Regions[id]))
 //@   loop 2: invariant forall id string :: (old(has(s.Styles, id)) ==> has(s.Styles, id) && s.Styles[id] == old(s.Styles[id])) && (!old(has(s.Styles, id)) ==> (has(s.Styles, id) <==> (has(i.Styles, id) && visited(2, id))) && (has(s.Styles, id) ==> s.Styles[id] == i.Styles[id]))
 //@ end
+
+// ---------------------------------------------------------------------------
+// C13  (*Subtitles).RemoveStyling, (*Subtitles).Optimize
+// ---------------------------------------------------------------------------
+
+//@ func (s *Subtitles) RemoveStyling()
+//@   prop C13
+//@   requires s != nil && nonNil(s)
+//@   ensures [maps] forall id string :: !has(s.Regions, id) && !has(s.Styles, id)
+//@   ensures [cues] forall k int :: 0 <= k && k < len(s.Items) ==> s.Items[k].Region == nil && s.Items[k].Style == nil && s.Items[k].InlineStyle == nil
+//@   ensures [runs] forall k, a, b int :: 0 <= k && k < len(s.Items) && 0 <= a && a < len(s.Items[k].Lines) && 0 <= b && b < len(s.Items[k].Lines[a].Items) ==> s.Items[k].Lines[a].Items[b].InlineStyle == nil && s.Items[k].Lines[a].Items[b].Style == nil
+//@   assigns s.Regions, s.Styles, Item.Region, Item.Style, Item.InlineStyle, elemfield(LineItem, InlineStyle), elemfield(LineItem, Style)
+//@   loop 1: invariant forall k int :: 0 <= k && k < $k1 ==> s.Items[k].Region == nil && s.Items[k].Style == nil && s.Items[k].InlineStyle == nil
+//@   loop 1: invariant forall k, a, b int :: 0 <= k && k < $k1 && 0 <= a && a < len(s.Items[k].Lines) && 0 <= b && b < len(s.Items[k].Lines[a].Items) ==> s.Items[k].Lines[a].Items[b].InlineStyle == nil && s.Items[k].Lines[a].Items[b].Style == nil
+//@   loop 2: invariant forall k int :: 0 <= k && k <= $k1 ==> s.Items[k].Region == nil && s.Items[k].Style == nil && s.Items[k].InlineStyle == nil
+//@   loop 2: invariant forall k, a, b int :: 0 <= k && k < $k1 && 0 <= a && a < len(s.Items[k].Lines) && 0 <= b && b < len(s.Items[k].Lines[a].Items) ==> s.Items[k].Lines[a].Items[b].InlineStyle == nil && s.Items[k].Lines[a].Items[b].Style == nil
+//@   loop 2: invariant forall a, b int :: 0 <= a && a < idxLine && 0 <= b && b < len(i.Lines[a].Items) ==> i.Lines[a].Items[b].InlineStyle == nil && i.Lines[a].Items[b].Style == nil
+//@   loop 3: invariant forall k int :: 0 <= k && k <= $k1 ==> s.Items[k].Region == nil && s.Items[k].Style == nil && s.Items[k].InlineStyle == nil
+//@   loop 3: invariant forall k, a, b int :: 0 <= k && k < $k1 && 0 <= a && a < len(s.Items[k].Lines) && 0 <= b && b < len(s.Items[k].Lines[a].Items) ==> s.Items[k].Lines[a].Items[b].InlineStyle == nil && s.Items[k].Lines[a].Items[b].Style == nil
+//@   loop 3: invariant forall a, b int :: 0 <= a && a < idxLine && 0 <= b && b < len(i.Lines[a].Items) ==> i.Lines[a].Items[b].InlineStyle == nil && i.Lines[a].Items[b].Style == nil
+//@   loop 3: invariant forall b int :: 0 <= b && b < idxLineItem ==> i.Lines[idxLine].Items[b].InlineStyle == nil && i.Lines[idxLine].Items[b].Style == nil
+//@ end
+
+//@ pred usedRegion(s *Subtitles, id string) = exists k int :: 0 <= k && k < len(s.Items) && s.Items[k].Region != nil && s.Items[k].Region.ID == id
+//@ pred cueStyleBelow(s *Subtitles, id string, n int) = exists k int :: 0 <= k && k < n && s.Items[k].Style != nil && s.Items[k].Style.ID == id
+//@ pred regionBelow(s *Subtitles, id string, n int) = exists k int :: 0 <= k && k < n && s.Items[k].Region != nil && s.Items[k].Region.ID == id
+//@ pred runStyleIn(it *Item, id string, na int) = exists a, b int :: 0 <= a && a < na && 0 <= b && b < len(it.Lines[a].Items) && it.Lines[a].Items[b].Style != nil && it.Lines[a].Items[b].Style.ID == id
+//@ pred runStyleInLine(it *Item, id string, a int, nb int) = exists b int :: 0 <= b && b < nb && it.Lines[a].Items[b].Style != nil && it.Lines[a].Items[b].Style.ID == id
+//@ pred runStyleBelow(s *Subtitles, id string, n int) = exists k int :: 0 <= k && k < n && runStyleIn(s.Items[k], id, len(s.Items[k].Lines))
+//@ pred directStyle(s *Subtitles, id string) = cueStyleBelow(s, id, len(s.Items)) || runStyleBelow(s, id, len(s.Items))
+//@ pred regionStyle(s *Subtitles, id string) = exists r string :: has(s.Regions, r) && s.Regions[r].Style != nil && s.Regions[r].Style.ID == id
+//@ pred wfRefs(s *Subtitles) = wfRegionKeys(s) && wfStyleKeys(s) && (forall id string :: has(s.Styles, id) && s.Styles[id].Style != nil ==> has(s.Styles, s.Styles[id].Style.ID) && s.Styles[s.Styles[id].Style.ID] == s.Styles[id].Style)
+
+//@ func (s *Subtitles) removeUnusedRegionsAndStyles()
+//@   prop C13
+//@   requires s != nil && nonNil(s) && wfRefs(s)
+//@   ensures [regions] forall x string :: has(s.Regions, x) <==> old(has(s.Regions, x)) && usedRegion(s, x)
+//@   ensures [region-values] forall x string :: has(s.Regions, x) ==> s.Regions[x] == old(s.Regions[x])
+//@   ensures [styles-subset] forall x string :: has(s.Styles, x) ==> old(has(s.Styles, x)) && s.Styles[x] == old(s.Styles[x])
+//@   ensures [styles-direct] forall x string :: old(has(s.Styles, x)) && (directStyle(s, x) || regionStyle(s, x)) ==> has(s.Styles, x)
+//@   ensures [closure] forall x string :: has(s.Styles, x) && s.Styles[x].Style != nil ==> has(s.Styles, s.Styles[x].Style.ID)
+//@   ensures [support] forall x string :: has(s.Styles, x) ==> directStyle(s, x) || regionStyle(s, x) || (exists y string :: has(s.Styles, y) && s.Styles[y].Style != nil && s.Styles[y].Style.ID == x)
+//@   assigns entries(s.Regions), entries(s.Styles)
+//@   loop 1: invariant forall x string :: has(usedRegions, x) <==> regionBelow(s, x, $k1)
+//@   loop 1: invariant forall x string :: has(usedStyles, x) <==> cueStyleBelow(s, x, $k1) || runStyleBelow(s, x, $k1)
+//@   loop 2: invariant forall x string :: has(usedRegions, x) <==> regionBelow(s, x, $k1 + 1)
+//@   loop 2: invariant forall x string :: has(usedStyles, x) <==> cueStyleBelow(s, x, $k1 + 1) || runStyleBelow(s, x, $k1) || runStyleIn(item, x, $k2)
+//@   loop 3: invariant forall x string :: has(usedRegions, x) <==> regionBelow(s, x, $k1 + 1)
+//@   loop 3: invariant forall x string :: has(usedStyles, x) <==> cueStyleBelow(s, x, $k1 + 1) || runStyleBelow(s, x, $k1) || runStyleIn(item, x, $k2) || runStyleInLine(item, x, $k2, $k3)
+//@   loop 4: invariant forall x string :: has(s.Regions, x) <==> old(has(s.Regions, x)) && (!visited(4, x) || has(usedRegions, x))
+//@   loop 4: invariant forall x string :: has(s.Regions, x) ==> s.Regions[x] == old(s.Regions[x])
+//@   loop 4: invariant forall x string :: has(usedStyles, x) <==> directStyle(s, x) || (exists r string :: visited(4, r) && has(s.Regions, r) && s.Regions[r].Style != nil && s.Regions[r].Style.ID == x)
+//@   loop 5: invariant forall x string :: directStyle(s, x) || regionStyle(s, x) ==> has(usedStyles, x)
+//@   loop 5: invariant forall x string :: has(usedStyles, x) && has(s.Styles, x) && s.Styles[x].Style != nil && (visited(5, x) || !(directStyle(s, x) || regionStyle(s, x))) ==> has(usedStyles, s.Styles[x].Style.ID)
+//@   loop 5: invariant forall x string :: has(usedStyles, x) ==> directStyle(s, x) || regionStyle(s, x) || (exists y string :: has(usedStyles, y) && has(s.Styles, y) && s.Styles[y].Style != nil && s.Styles[y].Style.ID == x)
+//@   loop 6: ghost lastID string = style.ID ; at_end parent.ID
+//@   loop 6: invariant has(usedStyles, lastID) && has(s.Styles, lastID) && s.Styles[lastID].Style == parent
+//@   loop 6: invariant lastID != style.ID ==> style.Style != nil && has(usedStyles, style.Style.ID)
+//@   loop 6: invariant forall x string :: directStyle(s, x) || regionStyle(s, x) ==> has(usedStyles, x)
+//@   loop 6: invariant forall x string :: has(usedStyles, x) && has(s.Styles, x) && s.Styles[x].Style != nil && x != lastID && (visited(5, x) || !(directStyle(s, x) || regionStyle(s, x))) ==> has(usedStyles, s.Styles[x].Style.ID)
+//@   loop 6: invariant forall x string :: has(usedStyles, x) ==> directStyle(s, x) || regionStyle(s, x) || (exists y string :: has(usedStyles, y) && has(s.Styles, y) && s.Styles[y].Style != nil && s.Styles[y].Style.ID == x)
+//@   loop 7: invariant forall x string :: has(s.Styles, x) <==> old(has(s.Styles, x)) && (!visited(7, x) || has(usedStyles, x))
+//@   loop 7: invariant forall x string :: has(s.Styles, x) ==> s.Styles[x] == old(s.Styles[x])
+//@ end
+
+//@ func (s *Subtitles) Optimize()
+//@   prop C13
+//@   requires s != nil && nonNil(s) && wfRefs(s)
+//@   ensures [empty] len(s.Items) == 0 ==> forall x string :: (has(s.Regions, x) <==> old(has(s.Regions, x))) && (has(s.Styles, x) <==> old(has(s.Styles, x))) && s.Regions[x] == old(s.Regions[x]) && s.Styles[x] == old(s.Styles[x])
+//@   ensures [regions] len(s.Items) > 0 ==> forall x string :: has(s.Regions, x) <==> old(has(s.Regions, x)) && usedRegion(s, x)
+//@   ensures [region-values] forall x string :: has(s.Regions, x) ==> s.Regions[x] == old(s.Regions[x])
+//@   ensures [styles-subset] forall x string :: has(s.Styles, x) ==> old(has(s.Styles, x)) && s.Styles[x] == old(s.Styles[x])
+//@   ensures [styles-direct] len(s.Items) > 0 ==> forall x string :: old(has(s.Styles, x)) && (directStyle(s, x) || regionStyle(s, x)) ==> has(s.Styles, x)
+//@   ensures [closure] forall x string :: has(s.Styles, x) && s.Styles[x].Style != nil ==> has(s.Styles, s.Styles[x].Style.ID)
+//@   ensures [support] len(s.Items) > 0 ==> forall x string :: has(s.Styles, x) ==> directStyle(s, x) || regionStyle(s, x) || (exists y string :: has(s.Styles, y) && s.Styles[y].Style != nil && s.Styles[y].Style.ID == x)
+//@   assigns entries(s.Regions), entries(s.Styles)
+//@ end
